@@ -28,7 +28,8 @@ def check(F, rep):
 
     # ---- PublicKey constructors
     sites = [x for x in ctor_sites(F, PK, crates=["iroh_base"]) if not x[0].derived]
-    rep.floor("ctor_sites", "PublicKey construction sites", len(sites), 3)
+    # (3 on the pinned tree; routing the parsers through from_verifying_key leaves fewer - the floor only guards against a vacuous pass)
+    rep.floor("ctor_sites", "PublicKey construction sites", len(sites), 1)
     allowed = {PK + "::from_bytes", "<iroh_base::key::PublicKey as core::convert::TryFrom>::try_from", PK + "::from_verifying_key", K + "SecretKey::public"}
     for f, b, i, rv in sites:
         rep.fn(f)
